@@ -424,6 +424,46 @@ fn series(rng: &mut Rng) {
         i.n(k);
         emit("series.resample_n", &i, &o, &v);
     }
+    // resampling by spacing: spacings from a hundredth of the span to several times the span
+    if span > 0.0 {
+        let sp = match rng.below(6) {
+            0 => span * rng.range(2.0, 6.0),
+            1 => span * rng.range(1.0, 2.0),
+            2 => span / rng.int(1, 6) as f64,
+            3 => span * rng.range(0.4, 0.7),
+            _ => span * rng.range(0.01, 1.0),
+        };
+        let r = guarded(|| s.resampled_x(sp));
+        let mut v = Verdict::new();
+        let mut o = Tok::new();
+        match r {
+            Err(e) => {
+                o.w("panic");
+                v.require(false, "resampled_x.panics", || e.clone());
+            }
+            Ok(t) => {
+                check_series(&mut v, "resampled_x", &t);
+                let tx = t.x.values();
+                v.require(tx.len() >= 2, "resampled_x.not_collapsed", || format!("{} point(s) for spacing {sp} over span {span}", tx.len()));
+                if !tx.is_empty() {
+                    v.require(tx[0] == lo && (tx[tx.len() - 1] - hi).abs() <= 1e-12 * span.max(1.0), "resampled_x.keeps_both_ends", || format!("{tx:?} vs [{lo},{hi}]"));
+                }
+                for (x, y) in t.xys() {
+                    let r = ref_interp(&xs, &ys, *x);
+                    v.require((y - r).abs() <= 1e-9 * scale, "resampled_x.on_graph", || format!("{x}: {y} vs {r}"));
+                }
+                o.flist(tx);
+                o.n(t.y.len());
+                for y in &t.y {
+                    if y.is_nan() { o.w("none"); } else { o.w("some").f(*y); }
+                }
+            }
+        }
+        let mut i = Tok::new();
+        ser_tok(&mut i, &xs, &ys);
+        i.f(sp);
+        emit("series.resample_x", &i, &o, &v);
+    }
 }
 
 pub fn run(rng: &mut Rng, n: usize) {
